@@ -26,6 +26,7 @@ pub struct World<K: KeyT, V: ValT> {
     /// rayon in use: the live-table counter is not reliable (worker threads allocate/free asynchronously)
     pub nolive: bool,
     pub probe_ctr: usize,
+    pub zl0: (i64, i64),
 }
 
 #[derive(Default, Clone, Copy)]
@@ -196,6 +197,7 @@ impl<K: KeyT, V: ValT> World<K, V> {
             silent: false,
             nolive: cfg!(miri),
             probe_ctr: 0,
+            zl0: (0, 0),
         }
     }
 
@@ -372,6 +374,10 @@ impl<K: KeyT, V: ValT> World<K, V> {
             e.insert("par".into(), json!(1));
         }
         e.insert("st".into(), self.snapshot());
+        if K::NAME == "zst" {
+            // live zero-sized keys / values (creations - drops - legitimately forgotten) before this call
+            e.insert("zl0".into(), json!([self.zl0.0, self.zl0.1]));
+        }
         e.insert(
             "cost".into(),
             json!({"h":m.cost.h,"eq":m.cost.eq,"cl":m.cost.cl,"fn":m.cost.fnc,"al":m.cost.al,"de":m.cost.de,
